@@ -24,6 +24,9 @@ type Disk struct {
 	ReadMode int
 	MaxFaults int // upper bound on injected faults per run (0 = unlimited)
 	injected  int
+	// Force: fault kind -> fire at exactly the k-th eligible operation (1-based), no draw
+	Force map[string]int
+	seen  map[string]int
 
 	Ops map[string]int // operation counters (coverage)
 }
@@ -52,7 +55,7 @@ const (
 var AllDiskFaults = []string{FStatEACCES, FOpenVanished, FOpenEACCES, FOpenEMFILE, FReadEIO, FReadShort, FWriteENOSPC, FWriteEROFS, FWriteTorn, FReadDirEIO, FSyncEIO}
 
 func NewDisk(w *World) *Disk {
-	d := &Disk{w: w, nodes: map[string]*node{"/": {dir: true, perm: 0o755}}, Enabled: map[string]bool{}, Rate: 6, Ops: map[string]int{}}
+	d := &Disk{w: w, nodes: map[string]*node{"/": {dir: true, perm: 0o755}}, Enabled: map[string]bool{}, Rate: 6, Ops: map[string]int{}, Force: map[string]int{}, seen: map[string]int{}}
 	w.Disk = d
 	return d
 }
@@ -137,6 +140,17 @@ func (d *Disk) IsDir(p string) bool {
 // ---- fault decision
 
 func (d *Disk) fire(kind string) bool {
+	if k, ok := d.Force[kind]; ok {
+		// fault enumeration: this kind fires at exactly its k-th eligible operation
+		d.seen[kind]++
+		if d.seen[kind] == k {
+			d.injected++
+			d.w.Fault("disk." + kind)
+			d.w.Logf("FAULT disk.%s (forced at opportunity %d)", kind, k)
+			return true
+		}
+		return false
+	}
 	if !d.Enabled[kind] {
 		return false
 	}
@@ -247,7 +261,11 @@ func (f *SimFile) Read(b []byte) (int, error) {
 	if n > remain {
 		n = remain
 	}
-	if d.ReadMode == 1 && n > 1 && d.Enabled[FReadShort] {
+	if _, forced := d.Force[FReadShort]; forced && n > 1 {
+		if d.fire(FReadShort) {
+			n = 1
+		}
+	} else if d.ReadMode == 1 && n > 1 && d.Enabled[FReadShort] {
 		switch d.w.T.Draw(4) {
 		case 0: // full
 		case 1: // a random shorter length
